@@ -176,6 +176,11 @@ func (c *Check) NumViolations() int {
 // schedule class), used for de-duplication and for matching known findings; replay is the
 // JSON-serialisable artefact that `./run replay` re-executes.
 func (c *Check) Violation(sig, msg string, kind string, data any) {
+	c.ViolationEngine(c.Engine, sig, msg, kind, data)
+}
+
+// ViolationEngine is Violation for an artefact that another binary replays.
+func (c *Check) ViolationEngine(engine, sig, msg string, kind string, data any) {
 	c.mu.Lock()
 	defer c.mu.Unlock()
 	if v, ok := c.viol[sig]; ok {
@@ -196,7 +201,7 @@ func (c *Check) Violation(sig, msg string, kind string, data any) {
 		_ = os.MkdirAll(dir, 0o755)
 		name := fmt.Sprintf("%s-%s-%03d.json", c.ID, c.Tier, len(c.viol))
 		v.Replay = filepath.Join(dir, name)
-		js, _ := json.MarshalIndent(map[string]any{"property": c.ID, "engine": c.Engine, "kind": kind, "sig": sig, "msg": msg, "data": data}, "", " ")
+		js, _ := json.MarshalIndent(map[string]any{"property": c.ID, "engine": engine, "kind": kind, "sig": sig, "msg": msg, "data": data}, "", " ")
 		_ = os.WriteFile(v.Replay, js, 0o644)
 	}
 }
